@@ -7,7 +7,7 @@ from props import fam_sym
 
 MANIFEST = dict(
     technique='Coq proof of the placement bookkeeping (slot injectivity, phase algebra) + exact differential check of placement + O(N^2) direct-sum oracles on gemmi',
-    text='Theorems: indices that fit the grid never share a slot; every coefficient written by get_f_phi_on_grid (symmetry mate, Friedel flip to l>=0, phase shift) is the true value of the index it stands for, for every group and any symmetry-consistent phase function. The placement model (has_index, index_n, half-l flip, ZYX swap, first-writer-wins, add_friedel_mates) is compared slot by slot with gemmi for every table row with integer-coded amplitudes/phases. The analytic claims are decided on the implementation by oracles: FFT map vs direct Fourier sum at every grid point, invariance under every operation, transform_map_to_f_phi vs direct sum at every held index, prepare_asu_data, inverse transform, half vs full, XYZ vs ZYX, even and odd sizes.',
+    text='Theorems: indices that fit the grid never share a slot; every coefficient written by get_f_phi_on_grid (symmetry mate, Friedel flip to l>=0, phase shift) is the true value of the index it stands for, for every group and any symmetry-consistent phase function. The placement model (has_index, index_n, half-l flip, ZYX swap, first-writer-wins, add_friedel_mates) is compared slot by slot with gemmi for every table row with integer-coded amplitudes/phases. The analytic claims are decided on the implementation by oracles: FFT map vs direct Fourier sum at every grid point, invariance under every operation, transform_map_to_f_phi vs direct sum at every held index, prepare_asu_data, inverse transform, half vs full, XYZ vs ZYX, even and odd sizes; transform_f_phi_to_map at several sampling rates and minimum sizes: the size it picks holds every index, respects the rate, suits the space group and the FFT, and its map is bit-identical to the two-step route; exact_size accepted iff compatible.',
     note='Trusted: Coq kernel + vm_compute; translator; extraction; harness (double-precision direct sums, tolerance 2e-4 of max density). No axioms. pocketfft and float rounding are outside the model (oracle only).')
 
 GRIDS = {
@@ -63,6 +63,9 @@ def run(chk):
             lines.append('o_map\t%d %d %d %d %d %d %d 2' % (i, seed, g[0], g[1], g[2], half, zyx))
             lines.append('o_sf\t%d %d %d %d %d %d 0 2' % (i, seed + 1, g[0], g[1], g[2], rng.randint(0, 1)))
             lines.append('o_variants\t%d %d %d %d %d' % (i, seed + 2, g[0], g[1], g[2]))
+            lines.append('o_tfm\t%d %d %d %d %d %d %d %d' % (i, seed + 3, rng.choice([2, 3, 4]), rng.choice([0, 12, 15, 20, 30, 41]),
+                                                               rng.choice([0, 0, 5, 16]), rng.choice([0, 0, 7]), rng.choice([0, 0, 9, 24]),
+                                                               rng.randint(0, 1)))
     res = vlib.correspond(chk, h, d, lines, timeout=3000)
     for l in res['outputs']:
         p = l.split('\t')
